@@ -4,7 +4,7 @@ from __future__ import annotations
 import ast
 
 from ..model import AnalysisError, EnumVal, dotted, norm_text, unparse, walk_no_nested
-from ..q import find_case_table, NONEXC, Fn
+from ..q import find_case_table, NONEXC, Fn, inline_properties
 from .common import AT4_API, AT5_API, API, fn_of
 from . import c12
 
@@ -111,6 +111,9 @@ def r3(ctx):
                     continue
                 ctx.analysed["functions"].add(f"{modname}.{clsname}.{getter}")
                 v = _single_return(fnode)
+                if v is not None:
+                    # a getter that delegates to a sibling property reads what that property reads
+                    v = inline_properties(ctx.repo, m, v, "self", ci)
                 want_inner = f"self.{rec}.{field}"
                 if v is None:
                     ctx.violation(R, lab, m, fnode, f"returns {'TABLE[' if via else ''}{want_inner}{']' if via else ''}", "body is not a single return")
